@@ -9,7 +9,8 @@ open Obao.PKIRevoke
 
 /-- **revoked everywhere.**  Once `revoked/<serial>` of certificate `k` is recorded (stamp `t`) — in particular
 after a revoke that answered success, see `revoke_success_recorded` — then after EVERY later history (any
-requests, orders, faults, crashes, restarts): as long as the certificate is unexpired the record is unchanged,
+requests — including imports of issuers whose own certificate carries this very serial number —, orders, faults,
+crashes, restarts): as long as the certificate is unexpired the record is unchanged,
 `cert/<serial>` reports it revoked with the same time, OCSP answers revoked while its issuer exists, and EVERY
 complete CRL written for its issuer since then (while the CRL is not disabled) lists it. -/
 theorem revoked_everywhere (s : St) (k : Nat) (c : Cert) (t : Nat)
@@ -38,7 +39,7 @@ rotate) in which the hypotheses hold and CRLs are written afterwards -/
 example :
     let s := run init [⟨.addIssuer, [1], [1], none⟩, ⟨.issue 1 3600, [], [], none⟩, ⟨.revoke 0 false, [1], [1], none⟩]
     s.certs[0]? = some ⟨1, 3700⟩ ∧ s.revoked.lookup 0 = some 1 ∧
-    ((run s [⟨.addIssuer, [2, 1], [1, 2], none⟩, ⟨.tidy true true true, [1, 2], [1, 2], none⟩,
+    ((run s [⟨.importIssuer (some 0), [2, 1], [1, 2], none⟩, ⟨.tidy true true true, [1, 2], [1, 2], none⟩,
              ⟨.rotate, [2, 1], [2, 1], none⟩]).log.map fun e => (e.issuer, e.number, e.serials)).take 3
       = [(1, 8, []), (2, 4, []), (1, 7, [0])] := by decide
 
@@ -67,16 +68,18 @@ theorem revoke_success_recorded (s : St) (k : Nat) (byCert : Bool) (o1 o2 : List
       · exact rebuild_keeps _ _ _ _ _ _ st hst
 
 /-- **revocation is idempotent**: revoking an already revoked (stored) certificate answers the FIRST revocation's
-stamp and leaves the revocation store exactly as it was — whatever the orders and wherever the call is interrupted;
+stamp and leaves the revocation store exactly as it was — whatever the orders and wherever the call is interrupted
+(unless a present issuer's own certificate carries the same serial number: then the code refuses, `Res.isIssuer`);
 since the repair of F5 it re-publishes the CRLs when auto-rebuild is off, and writes nothing at all when it is on -/
 theorem revoke_idempotent (s : St) (k : Nat) (c : Cert) (t : Nat) (byCert : Bool) (o1 o2 : List Nat) (cut : Option Nat)
-    (hc : s.certs[k]? = some c) (hrev : s.revoked.lookup k = some t) (hs : k ∈ s.stored) :
+    (hc : s.certs[k]? = some c) (hrev : s.revoked.lookup k = some t) (hs : k ∈ s.stored)
+    (hcol : collides s k = false) :
     answer s ⟨.revoke k byCert, o1, o2, cut⟩ = .revoked t ∧
     (exec s ⟨.revoke k byCert, o1, o2, cut⟩).revoked = s.revoked ∧
     (s.cfg.autoRebuild = true → exec s ⟨.revoke k byCert, o1, o2, cut⟩ = s) := by
   have hp : prog s o1 o2 (.revoke k byCert) =
       (if s.cfg.autoRebuild then [] else rebuildSteps s false o1 o2, .revoked t) := by
-    simp only [prog, revokeProg, hc, hs, hrev, revokePre]
+    simp only [prog, revokeProg, hc, hs, hrev, revokePre, hcol]
     cases s.cfg.autoRebuild <;> simp [applySteps]
   refine ⟨by simp [answer, hp], ?_, fun ha => ?_⟩
   · simp only [exec, hp]
@@ -89,7 +92,7 @@ theorem revoke_idempotent (s : St) (k : Nat) (c : Cert) (t : Nat) (byCert : Bool
     cases cut <;> simp [cutSteps, applySteps]
 
 example : let s := run init [⟨.addIssuer, [1], [1], none⟩, ⟨.issue 1 3600, [], [], none⟩, ⟨.revoke 0 false, [1], [1], none⟩]
-    s.certs[0]? = some ⟨1, 3700⟩ ∧ s.revoked.lookup 0 = some 1 ∧ 0 ∈ s.stored := by decide
+    s.certs[0]? = some ⟨1, 3700⟩ ∧ s.revoked.lookup 0 = some 1 ∧ 0 ∈ s.stored ∧ collides s 0 = false := by decide
 
 /-- **no request removes or alters another certificate's revocation entry** — for EVERY request, orders and
 interruption point: an existing entry `(k', t')` is still there with the same stamp afterwards, the only exception
@@ -187,27 +190,10 @@ theorem revoke_restart (s : St) (k : Nat) (c : Cert) (byCert : Bool) (o1 o2 : Li
         · rw [(frameRevoked_step cur a h).1]; exact h2
   have hsteps : ∀ st ∈ (revokeProg s k byCert o1 o2).1, st = Step.putRevoked k (s.stamps + 1) ∨ frameRevoked st = true := by
     intro st hst
-    unfold revokeProg at hst
-    rw [hc] at hst
-    simp only [hnew] at hst
-    have hpre : ∀ st ∈ revokePre s k byCert, frameRevoked st = true := by
-      intro st h; rw [revokePre_kind s k byCert st h]; rfl
-    split at hst
-    · simp at hst
-    · split at hst
-      · simp at hst
-      · split at hst
-        · right; exact hpre st hst
-        · split at hst
-          · simp only [List.mem_append, List.mem_singleton] at hst
-            rcases hst with h | h
-            · right; exact hpre st h
-            · left; exact h
-          · simp only [List.mem_append, List.mem_singleton] at hst
-            rcases hst with (h | h) | h
-            · right; exact hpre st h
-            · left; exact h
-            · right; exact rebuild_frameRevoked _ _ _ _ st h
+    rcases revoke_step_kind s k byCert o1 o2 st hst with rfl | rfl | ⟨s', f, h⟩
+    · right; rfl
+    · left; rfl
+    · right; exact rebuild_frameRevoked s' f o1 o2 st h
   have hfin : s'.certs = s.certs ∧ (s'.revoked = s.revoked ∨ s'.revoked.lookup k = some (s.stamps + 1)) :=
     key ((revokeProg s k byCert o1 o2).1.take j) (fun st h => hsteps st (List.mem_of_mem_take h)) s rfl (Or.inl rfl)
   obtain ⟨hcerts, h | h⟩ := hfin
@@ -252,6 +238,62 @@ example : let s := run init [⟨.addIssuer, [1], [1], none⟩, ⟨.issue 1 3600,
     answer (exec s ⟨.revoke 0 false, [1], [1], some 1⟩) ⟨.revoke 0 false, [1], [1], none⟩ = .revoked 1 ∧
     served (exec (exec s ⟨.revoke 0 false, [1], [1], some 1⟩) ⟨.revoke 0 false, [1], [1], none⟩) 1 = some (3, [0]) := by
   decide
+
+/-! ### importing issuers whose own certificate shares a serial number with a revoked certificate
+
+`revoked_everywhere`, `entries_preserved`, `revoke_restart`, `revoke_fault_retry` quantify over ALL histories, and
+`Op.importIssuer` (an externally built CA, possibly carrying the serial number of an already revoked certificate of
+another issuer) is one of the requests.  The model-level reason they survive such imports: a CRL's content is
+decided by ASSOCIATION (the certificate's issuer), and the "skip an issuer's own certificate" rule of
+`getLocalRevokedCertEntries` is keyed by certificate identity — the certificates of the table are never issuer
+certificates — so `crlSerials` never consults `issuerSerial`; only `revokeCert`'s refusal (`collides`) does. -/
+
+/-- the content of every CRL is independent of which issuers' own certificates share serial numbers with whom -/
+theorem crl_content_ignores_serial_collisions (s : St) (x : List (Nat × Nat)) (i : Nat) :
+    crlSerials { s with issuerSerial := x } i = crlSerials s i := rfl
+
+/-- a revoked certificate is on the CRL content of exactly the issuer it is associated with -/
+theorem crl_content_by_association (s : St) (k i : Nat) :
+    k ∈ crlSerials s i ↔ k ∈ s.revoked.map Prod.fst ∧ assigned s k = some i := by
+  simp [crlSerials, List.mem_filter]
+
+/-- importing an issuer — colliding serial or not, interrupted anywhere or not — changes neither the revocation
+store nor the certificate table -/
+theorem import_keeps_revocation_store (s : St) (col : Option Nat) (o1 o2 : List Nat) (cut : Option Nat) :
+    (exec s ⟨.importIssuer col, o1, o2, cut⟩).revoked = s.revoked ∧
+    (exec s ⟨.importIssuer col, o1, o2, cut⟩).certs = s.certs := by
+  have hadd : ∀ s' : St, ∀ st ∈ (addIssuerProg s' o1 o2).1, frameRevoked st = true := by
+    intro s' st hst
+    simp only [addIssuerProg, List.mem_append, List.mem_singleton] at hst
+    rcases hst with (rfl | h) | h
+    · rfl
+    · split at h
+      · simp only [List.mem_singleton] at h; subst h; rfl
+      · simp at h
+    · exact rebuild_frameRevoked _ _ _ _ st h
+  refine frameRevoked_steps _ s (fun st hst => ?_)
+  have hst := cutSteps_sub _ _ st hst
+  cases col with
+  | none => exact hadd s st hst
+  | some k =>
+    simp only [prog, importIssuerProg] at hst
+    split at hst
+    · simp at hst
+    · rcases List.mem_cons.mp hst with rfl | h
+      · rfl
+      · exact hadd _ st h
+
+/-- the scenario of the seeded change, in the model: leaf #1 of issuer 1 is revoked and listed; then a CA whose own
+certificate carries the leaf's serial number is imported (with a forced rebuild), then `crl/rotate`: both complete
+CRLs of issuer 1 written afterwards (numbers 5 and 7) list the leaf, status and OCSP stay "revoked", and a further
+revoke of that serial is refused because it now also is an issuer's serial -/
+example :
+    let s := run init [⟨.addIssuer, [1], [1], none⟩, ⟨.craft 1 true, [], [], none⟩, ⟨.revoke 0 true, [1], [1], none⟩]
+    let s' := run s [⟨.importIssuer (some 0), [2, 1], [1, 2], none⟩, ⟨.rotate, [1, 2], [2, 1], none⟩]
+    s.certs[0]? = some ⟨1, 3700⟩ ∧ s.revoked.lookup 0 = some 1 ∧ collides s' 0 = true ∧
+    ((s'.log.filter fun e => e.issuer == 1 && !e.delta).map fun e => (e.number, e.serials)) = [(7, [0]), (5, [0]), (3, [0]), (1, [])] ∧
+    status s' 0 = .revoked 1 ∧ ocsp s' 0 = .revoked ∧ served s' 1 = some (7, [0]) ∧
+    answer s' ⟨.revoke 0 true, [1, 2], [1, 2], none⟩ = .isIssuer := by decide
 
 /-! ### CRL numbers -/
 
